@@ -1019,7 +1019,7 @@ func (s *Script) Render(produceModels bool) string {
 		body := emit(t)
 		if refs[t.id] > 1 && t.Op != "const" && t.Op != "var" && len(body) > 12 {
 			n++
-			nm := fmt.Sprintf(".t%d", n)
+			nm := fmt.Sprintf("tm$%d", n)
 			fmt.Fprintf(&b, "(define-fun %s () %s %s)\n", nm, t.S, body)
 			names[t.id] = nm
 			return nm
